@@ -310,6 +310,13 @@ def as_constructed(run):
             run.violation("a freshly constructed shell is not unit-normalised", {"case": "constructed", "basis": [s.describe()], "signature": {"kind": "renormalise"}})
 
 
+def import_histories(run, n=4):
+    """import calls in a history: parse, use / edit the result, parse again, rewrite the file, parse again (see c18.repeated_import_case)"""
+    from checks import c18
+    for k in range(n):
+        c18.repeated_import_case(run, run.rng, "nw" if k % 2 else "gbs")
+
+
 def check(run):
     quick = run.tier == "quick"
     lengths = [1, 2, 3, 5, 8, 13, 21, 30] if quick else [1, 2, 3, 4, 5, 6, 8, 10, 13, 16, 21, 25, 30] * 4
@@ -317,10 +324,14 @@ def check(run):
         history(run, n, k)
     freshness(run)
     as_constructed(run)
+    import_histories(run, 4 if quick else 24)
 
 
 def replay(run, rep):
     n0 = len(run.violations)
+    if rep.get("case") == "repeated-import":
+        import_histories(run, 8)
+        return len(run.violations) == n0
     for k in range(12):
         history(run, 30, k)
     freshness(run)
